@@ -1060,6 +1060,13 @@ fn sequential(cx: &mut Ctx<'_>, rng: &mut Rng, run_idx: u64, t0: i128, tier: vli
         set_time(t);
         let s0 = snap(dir);
         let res = match cfg.api {
+            // every third write through the exclusive interface is a vectored one (two slices,
+            // the first possibly empty): it must rotate and prune like any other write
+            Api::Write if (opn as u64) % 3 == 2 => {
+                let k = (run_idx as usize).wrapping_add(opn as usize) % (buf.len() + 1);
+                cx.out.count("vectored_writes", 1);
+                std::io::Write::write_vectored(&mut app, &[std::io::IoSlice::new(&buf[..k]), std::io::IoSlice::new(&buf[k..])])
+            }
             Api::Write => app.write(&buf),
             _ => {
                 let mut w = (&app).make_writer();
